@@ -65,7 +65,14 @@ def lemmas_real(dens):
         'disjoint': (dens + [p_ != q_], Or(p_ * D - q_ * D >= D, q_ * D - p_ * D >= D)),
         'cyclic_injective': (dens + [t1 < t2, t2 - t1 < D], t1 % D != t2 % D),
         'flush_visits_open': (dens + [n >= 0, opn(a)], And(0 <= a / s - Q + D, a / s - Q + D < D, (Q + (a / s - Q + D)) % D == cell(a))),
-        'flush_order': (dens + [n >= 0, opn(a), opn(b), 0 <= t1, t1 < t2, t2 < D, cell(a) == (Q + t1) % D, cell(b) == (Q + t2) % D], a < b),
+        # flush_order, split into fast and stable steps (a single NIA query took 1-7 s and was load-sensitive):
+        'flush_order.window_range': (dens + [n >= 0, opn(a)], And(Q - D <= a / s, a / s < Q)),
+        'flush_order.plus_density': (dens, (x + D) % D == x % D),
+        'flush_order': (dens + [n >= 0, opn(a), opn(b), 0 <= t1, t1 < t2, t2 < D, cell(a) == (Q + t1) % D, cell(b) == (Q + t2) % D,
+                                # instances of the three facts above and of cyclic_injective
+                                And(Q - D <= a / s, a / s < Q), And(Q - D <= b / s, b / s < Q), (a / s + D) % D == (a / s) % D, (b / s + D) % D == (b / s) % D]
+                        + [Implies(And(u < v, v - u < D), u % D != v % D) for (u, v) in ((Q + t1, a / s + D), (a / s + D, Q + t1), (Q + t2, b / s + D), (b / s + D, Q + t2))],
+                        a < b),
     }
 
 
@@ -235,7 +242,7 @@ class RollMux(Spawner):
         t, o, i = Ints('ft fo fi')
         mw, vw = q.store.marker[1], q.store.value[1]
         B = {'lemmas': ['mul_nonneg', 'range']}
-        return [('visited_closed', ForAll([t], Implies(And(0 <= t, t < j), cell(vw, pos(t)) == -1)), B),
+        return [('visited_closed', ForAll([t], Implies(And(0 <= t, t < j), cell(vw, pos(t)) == -1)), {'prove': self.visited_skolem}),
                 ('unvisited_unchanged', ForAll([t], Implies(And(j <= t, t < D), cell(vw, pos(t)) == cell(vW, pos(t)))), {'prove': self.unvisited_skolem}),
                 ('only_closing', ForAll([o], Implies(And(0 <= o, o < D), Or(cell(vw, o) == cell(vW, o), cell(vw, o) == -1))), B),
                 ('marks', ForAll([o], Implies(And(0 <= o, o < D), Select(mw, BASE + o) == M_SET)), B),
@@ -243,6 +250,20 @@ class RollMux(Spawner):
                 ('frame.count', And(q.store.marker[0] == L.pre.store.marker[0], q.store.value[0] == L.pre.store.value[0]), B),
                 ('trace', q.trace == Concat(T0, rollG(j)), B),
                 ('bounds', And(j >= 0, j <= D), B)]
+
+    def visited_skolem(self, L, q, jn):
+        """`visited_closed` for an arbitrary step tsk < jn; the invariant assumed at the loop head is instantiated at tsk syntactically"""
+        Q, pos, gdelta = self.flush_terms()
+        vw = q.store.value[1]
+        tsk = Int('t_sk'); t = Int('ft')
+        goal = Implies(And(0 <= tsk, tsk < jn), cell(vw, pos(tsk)) == -1)
+        j0 = jn - 1
+        insts = []
+        for f in q.pc:
+            # the assumed invariant (same shape, over the havocked arrays): find it by shape and instantiate it at tsk
+            if z3.is_quantifier(f) and f.is_forall() and f.num_vars() == 1 and f.var_name(0) == 'ft' and '== -1' in str(f.body())[-12:] + ' ':
+                insts.append((f, [tsk]))
+        return goal, {'pc_instances': insts, 'lemmas': ['range', 'mul_nonneg']}
 
     def unvisited_skolem(self, L, q, jn):
         """the clause for an arbitrary step tsk >= jn, with the instance of `cyclic_injective` it needs as a hint"""
